@@ -116,6 +116,27 @@ fn set_mtime(path: &std::path::Path, secs: i64) -> bool {
 fn run(ctx: &Ctx, rep: &Report) {
     let win: i64 = ctx.tier.pick(100_000, 20_000_000);
     let centers = [0i64, 1 << 31, TWO32];
+    // 0. the seconds next to each boundary with every sub-second offset and every zone
+    {
+        let mut local = BTreeMap::new();
+        let mut hs = Vec::new();
+        let mut n = 0u64;
+        for c in centers {
+            for secs in c - 3..=c + 3 {
+                for nanos in NANOS.iter().copied().chain([2, 999, 1_000_000, 123_456_789, 999_999_998]) {
+                    observe(rep, &mut local, &mut hs, secs, nanos, None);
+                    for z in ZONES {
+                        observe(rep, &mut local, &mut hs, secs, nanos, Some(z));
+                    }
+                    n += 1 + ZONES.len() as u64;
+                }
+            }
+        }
+        rep.eval(n);
+        rep.count("boundary_second_x_subsecond_x_zone", n);
+        rep.counts(&local);
+        rep.nontrivial_many(hs);
+    }
     // 1. every second in the windows
     for c in centers {
         let total = (2 * win + 1) as u64;
